@@ -1,6 +1,8 @@
+pub mod declgen;
 pub mod evidence;
 pub mod gen;
 pub mod refcodec;
+pub mod tamper;
 pub mod ty;
 pub mod val;
 
